@@ -127,6 +127,23 @@ CLAIMED = {
         technique="symbolic execution (CrossHair/z3) of the real resolver with symbolic versions; choice-exhaustive graphs vs oracle",
         ref="3/C09",
     ),
+    "C10": dict(
+        text="Symbolic execution of the real ordering (file_sort / get_definition_ordering_rank) on three definitions and on "
+        "three composite types whose versions are SYMBOLIC (every M.m in 0..255): the output is a permutation sorted by name, "
+        "then major and minor version, newest first. Choice-exhaustive on scratch directory trees with the real "
+        "read_namespace / read_files under an environment stub that permutes Path.rglob results and set iteration (5 "
+        "orders): exactly one composite per .dsdl/.uavcan file of the root (none missing, duplicated or taken from lookup "
+        "directories), sorted; identical models for 6 spellings of the root x 10 spellings of the lookup argument (absolute, "
+        "relative to cwd, str, via symlink, with .., duplicated, mixed spellings of one directory); read_files for every "
+        "subset of 1..3 of 7 targets x orders x spellings: direct = requested, transitive = rest of the closure, disjoint, "
+        "sorted, types equal to read_namespace's; 17 layouts of root/lookup directories x collision flag: rejected exactly "
+        "for nesting (depth 1..3, either argument order) or same name ignoring case when collisions are disallowed.",
+        note="The real hash seed and directory enumeration order are MODELLED by the stub, not varied. Everything except the "
+        "ordering conditions is concrete file-system input (choice variables, real code run natively): solver leverage "
+        "is confined to c10.sort.",
+        technique="symbolic execution (CrossHair/z3) of real ordering on symbolic versions; choice-exhaustive trees under an order-permuting stub",
+        ref="3/C10",
+    ),
     "C11": dict(
         text="Symbolic execution of the real cross-definition checks on real Structure/Delimited/Service objects: "
         "majors, minors, port-IDs (present/absent) and extents are symbolic over their whole legal ranges; accepted "
